@@ -10,7 +10,7 @@ def bounded(pb, interp, rng, tier):
     ev, fails = 0, []
 
     def fail(what, inst, observed, expected):
-        if len(fails) < 10:
+        if sum(1 for f_ in fails if f_["what"] == what) < 8:      # cap per kind: a known finding must not crowd out a new failure
             fails.append({"function": "pulsarbat.transforms.transforms.snippet", "what": what, "instance": inst, "inputs": {"case": inst},
                           "observed": str(observed)[:200], "expected": str(expected)[:200], "status": "mismatch"})
     rates = [1 * u.Hz, 1.1 * u.MHz, 49 * u.Hz, 800 * u.MHz, 3 * u.kHz, 1 / (7 * u.us)]
@@ -29,7 +29,14 @@ def bounded(pb, interp, rng, tier):
                     except Exception as e:
                         fail("bound-request.raises", inst, f"{type(e).__name__}: {e}", f"{n} samples equal to z[{k}:{k + n}]")
                         continue
-                    if len(y) != n or not np.allclose(np.asarray(y.data), want, rtol=0, atol=1e-6 * max(1, N)):
+                    # value tolerance: FFT rounding for requests that are exact numbers; an instant carried by an astropy
+                    # Time is known to 2 ulp of a day only (trusted base, Time.isclose), i.e. to dt_s samples, and the
+                    # band-limited interpolant moves by at most pi (1 + ln N) max|z| per sample (Bernstein x Lebesgue)
+                    atol = 1e-6 * max(1, N)
+                    if form in ("time", "slice-start"):
+                        dt_s = 3 * 2.0 ** -52 * 86400 * float(sr.to_value(u.Hz))
+                        atol += dt_s * np.pi * (1 + np.log(max(N, 2))) * max(1, N)
+                    if len(y) != n or not np.allclose(np.asarray(y.data), want, rtol=0, atol=atol):
                         fail("bound-request.value", inst, f"len {len(y)}", f"{n} samples equal to z[{k}:{k + n}]")
     # integer-valued samples: a fractional start still interpolates (band-limited shift of the data as numbers)
     for dt_ in (np.int16, np.int64):
